@@ -3,6 +3,7 @@ package rules
 import (
 	"fmt"
 	"go/ast"
+	"go/parser"
 	"go/token"
 	"go/types"
 	"sort"
@@ -2431,4 +2432,220 @@ func E4RadiiNonzero(c *core.Ctx, r *core.Report) {
 	}
 	r.Count("E4.radii-arguments", n)
 	r.Floor("E4.radii-arguments", 6)
+}
+
+// E4AdditiveLoop: a loop that walks a value towards a bound by adding a variable has a positive step.
+func E4AdditiveLoop(c *core.Ctx, r *core.Report) {
+	r.Rule("E4.additive-loop", "package canvas and the PDF, PostScript and SVG writers: a loop of the form `for x < K { x += s }` (or `for K < x { x -= s }`) whose body does nothing else to x terminates only if the step s is positive. Where s is a variable, the loop sits under a condition that establishes `0 < s` (or `s > 0`, `s != 0` for an accumulated sum of non-negative terms is not enough), or s is a positive constant. The PDF writer made a negative dash phase positive by adding the pattern length, which is zero for a solid stroke: drawing with SetDashes(-1) never returned")
+	n := 0
+	for _, rel := range []string{"", "renderers/pdf", "renderers/ps", "renderers/svg"} {
+		p := c.MustPkg(rel)
+		info := p.TypesInfo
+		for _, fd := range core.AllFuncDecls(p) {
+			if fd.Body == nil || strings.HasSuffix(c.Fset.Position(fd.Pos()).Filename, "_test.go") {
+				continue
+			}
+			fname := p.Types.Name() + "." + core.FuncName(fd)
+			ord := 0
+			var stack []ast.Node
+			ast.Inspect(fd.Body, func(m ast.Node) bool {
+				if m == nil {
+					stack = stack[:len(stack)-1]
+					return true
+				}
+				stack = append(stack, m)
+				loop, ok := m.(*ast.ForStmt)
+				if !ok || loop.Init != nil || loop.Post != nil || loop.Cond == nil || len(loop.Body.List) != 1 {
+					return true
+				}
+				be, ok := core.Unparen(loop.Cond).(*ast.BinaryExpr)
+				if !ok || (be.Op != token.LSS && be.Op != token.GTR && be.Op != token.LEQ && be.Op != token.GEQ) {
+					return true
+				}
+				as, ok := loop.Body.List[0].(*ast.AssignStmt)
+				if !ok || (as.Tok != token.ADD_ASSIGN && as.Tok != token.SUB_ASSIGN) || len(as.Lhs) != 1 {
+					return true
+				}
+				xid, ok := as.Lhs[0].(*ast.Ident)
+				if !ok {
+					return true
+				}
+				x := core.ObjOf(info, xid)
+				mentionsX := false
+				ast.Inspect(loop.Cond, func(k ast.Node) bool {
+					if id, ok := k.(*ast.Ident); ok && core.ObjOf(info, id) == x {
+						mentionsX = true
+					}
+					return true
+				})
+				if !mentionsX {
+					return true
+				}
+				n++
+				ord++
+				key := fmt.Sprintf("%s|additive loop #%d has a positive step", fname, ord)
+				step := core.Unparen(as.Rhs[0])
+				if f, isConst := constantFloat(core.ConstVal(info, step)); isConst {
+					if f > 0 {
+						r.OK("E4.additive-loop", key, c.Pos(loop.Pos()), "constant step")
+					} else {
+						r.Fail("E4.additive-loop", key, c.Pos(loop.Pos()), "the constant step is not positive")
+					}
+					return true
+				}
+				stepStr := squash(types.ExprString(step))
+				established := false
+				for i := len(stack) - 2; i >= 0; i-- {
+					is, ok := stack[i].(*ast.IfStmt)
+					if !ok || !(is.Body.Pos() <= loop.Pos() && loop.End() <= is.Body.End()) {
+						continue
+					}
+					ast.Inspect(is.Cond, func(k ast.Node) bool {
+						cb, ok := k.(*ast.BinaryExpr)
+						if !ok {
+							return true
+						}
+						l, rr := squash(types.ExprString(cb.X)), squash(types.ExprString(cb.Y))
+						lz, lok := constantFloat(core.ConstVal(info, cb.X))
+						rz, rok := constantFloat(core.ConstVal(info, cb.Y))
+						if cb.Op == token.LSS && lok && lz >= 0 && rr == stepStr {
+							established = true
+						}
+						if cb.Op == token.GTR && rok && rz >= 0 && l == stepStr {
+							established = true
+						}
+						return true
+					})
+				}
+				if established {
+					r.OK("E4.additive-loop", key, c.Pos(loop.Pos()), "")
+				} else {
+					r.Fail("E4.additive-loop", key, c.Pos(loop.Pos()), fmt.Sprintf("`%s` is repeated until `%s`, but nothing establishes that the step `%s` is positive: with a zero step the loop never ends", c.Src(as), c.Src(loop.Cond), c.Src(step)))
+				}
+				return true
+			})
+		}
+	}
+	r.Count("E4.additive-loops", n)
+	r.Floor("E4.additive-loops", 1)
+}
+
+// insertAliasSites finds, below n, the expressions `append(append(S[:i], A…), S[j:]...)` whose inner
+// append can write over the part of S's backing array that the outer append still has to read.
+// S[:i] keeps the capacity of S, so the inner append stores A at S[i], S[i+1], … in place; the tail
+// S[j:] is only intact when A has at most j-i elements. The sound forms are a full slice expression
+// S[:i:i] (forces a copy), a separately copied tail, or slices.Insert.
+func insertAliasSites(info *types.Info, n ast.Node, visit func(outer *ast.CallExpr, ok bool, why string)) {
+	isAppend := func(e ast.Expr) *ast.CallExpr {
+		call, ok := core.Unparen(e).(*ast.CallExpr)
+		if !ok || len(call.Args) < 2 {
+			return nil
+		}
+		id, ok := core.Unparen(call.Fun).(*ast.Ident)
+		if !ok {
+			return nil
+		}
+		if b, ok := info.Uses[id].(*types.Builtin); !ok || b.Name() != "append" {
+			return nil
+		}
+		return call
+	}
+	ast.Inspect(n, func(m ast.Node) bool {
+		e, ok := m.(ast.Expr)
+		if !ok {
+			return true
+		}
+		outer := isAppend(e)
+		if outer == nil || !outer.Ellipsis.IsValid() || len(outer.Args) != 2 {
+			return true
+		}
+		inner := isAppend(outer.Args[0])
+		tail, ok := core.Unparen(outer.Args[1]).(*ast.SliceExpr)
+		if inner == nil || !ok {
+			return true
+		}
+		base, ok := core.Unparen(inner.Args[0]).(*ast.SliceExpr)
+		if !ok || types.ExprString(base.X) != types.ExprString(tail.X) {
+			return true
+		}
+		if _, isSlice := info.TypeOf(base.X).Underlying().(*types.Slice); !isSlice {
+			return true
+		}
+		switch {
+		case base.Slice3:
+			visit(outer, true, "full slice expression limits the capacity: the inner append copies")
+		case base.High == nil:
+			visit(outer, true, "the base is the whole slice: the inner append writes past its end")
+		case inner.Ellipsis.IsValid():
+			visit(outer, false, fmt.Sprintf("the inner append stores the elements of %s in place from %s[%s] on, before the tail %s is read: with more than one element it overwrites the tail", types.ExprString(inner.Args[len(inner.Args)-1]), types.ExprString(base.X), types.ExprString(base.High), types.ExprString(tail)))
+		default:
+			cnt := len(inner.Args) - 1
+			gap, ok := 0, tail.Low != nil
+			if ok {
+				gap, ok = indexDistance(info, tail.Low, base.High)
+			}
+			if ok && cnt <= gap {
+				visit(outer, true, "")
+			} else {
+				visit(outer, false, fmt.Sprintf("the inner append stores %d element(s) in place from %s[%s] on, before the tail %s is read", cnt, types.ExprString(base.X), types.ExprString(base.High), types.ExprString(tail)))
+			}
+		}
+		return true
+	})
+}
+
+// E4InsertAlias: no in-place insertion that overwrites the tail it is about to append.
+func E4InsertAlias(c *core.Ctx, r *core.Report, pkgs []string) {
+	r.Rule("E4.insert-alias", "no expression `append(append(S[:i], A…), S[j:]...)` may store more than j−i elements through the inner append: S[:i] shares S's backing array and capacity, so the elements of A are written over S[i], S[i+1], … before the outer append reads S[j:]. The result then repeats elements of A and loses elements of S (in the boolean operations: an operand contour is duplicated and another disappears, and nothing panics). Accepted: S[:i:i], a base that is the whole slice, and a fixed number of elements that fits the gap. The recogniser is exercised on a built-in positive example on every run")
+	// self-test: the rule's expected count on the tree is zero, so the matcher proves itself first
+	{
+		src := "package x\nfunc f(s, a []int, i int) []int { return append(append(s[:i], a...), s[i+1:]...) }\nfunc g(s []int, i, v int) []int { return append(append(s[:i], v), s[i+1:]...) }\nfunc h(s, a []int, i int) []int { return append(append(s[:i:i], a...), s[i+1:]...) }\nfunc k(s []int, i, v int) []int { return append(append(s[:i], v, v), s[i+1:]...) }\n"
+		fset := token.NewFileSet()
+		f, err := parser.ParseFile(fset, "selftest.go", src, 0)
+		if err != nil {
+			panic(core.Infra("insert-alias self-test does not parse: " + err.Error()))
+		}
+		info := &types.Info{Types: map[ast.Expr]types.TypeAndValue{}, Uses: map[*ast.Ident]types.Object{}, Defs: map[*ast.Ident]types.Object{}}
+		if _, err := (&types.Config{}).Check("x", fset, []*ast.File{f}, info); err != nil {
+			panic(core.Infra("insert-alias self-test does not type-check: " + err.Error()))
+		}
+		got := ""
+		for _, d := range f.Decls {
+			fd := d.(*ast.FuncDecl)
+			insertAliasSites(info, fd, func(_ *ast.CallExpr, ok bool, _ string) {
+				got += fd.Name.Name + map[bool]string{true: "+", false: "-"}[ok]
+			})
+		}
+		if got != "f-g+h+k-" {
+			panic(core.Infra("insert-alias self-test: recogniser answers " + got + ", want f-g+h+k-"))
+		}
+		r.Count("E4.insert-alias-selftest", 4)
+	}
+	funcs := 0
+	for _, rel := range pkgs {
+		p := c.MustPkg(rel)
+		pk := "canvas"
+		if rel != "" {
+			pk = rel
+		}
+		for _, fd := range core.AllFuncDecls(p) {
+			if strings.HasSuffix(c.Fset.Position(fd.Pos()).Filename, "_test.go") {
+				continue
+			}
+			funcs++
+			ord := 0
+			insertAliasSites(p.TypesInfo, fd.Body, func(outer *ast.CallExpr, ok bool, why string) {
+				ord++
+				key := fmt.Sprintf("%s.%s|nested append over one slice #%d", pk, core.FuncName(fd), ord)
+				if ok {
+					r.OK("E4.insert-alias", key, c.Pos(outer.Pos()), why)
+				} else {
+					r.Fail("E4.insert-alias", key, c.Pos(outer.Pos()), why)
+				}
+			})
+		}
+	}
+	r.Count("E4.insert-alias-functions", funcs)
+	r.Floor("E4.insert-alias-functions", 500)
+	r.Floor("E4.insert-alias-selftest", 4)
 }
